@@ -629,10 +629,12 @@ func pickW(r *hx.RNG, ps []wpick) string {
 }
 
 var nameSegs = []string{"web", "web", "web", "api", "Web", "%77eb", "we%62", "web%2Fapi", "a%2Fb", "*", "%2A", "web%", "%zz", "%",
-	"a+b", "a%20b", "%C3%A9", "%00", "%ff", "web;x", "a:b", "a@b", "~x", "web.v1", "a%25b", "node1", "node1", "Node1", "node%31", "n%2Fid%2Fx"}
-var dcSegs = []wpick{{62, "dc1"}, {8, "dc2"}, {5, "DC1"}, {5, "dc%31"}, {4, "d%631"}, {4, "dc1x"}, {4, "dc%2F1"}, {3, "%zz"}, {3, "dc1%2Fid%2Fnode1"}, {2, "*"}}
-var nsSegs = []wpick{{80, "default"}, {5, "Default"}, {5, "other"}, {6, "def%61ult"}, {4, "%64efault"}}
-var apPfx = []wpick{{72, ""}, {10, "/ap/default"}, {7, "/ap/foo"}, {3, "/ap/DEFAULT"}, {4, "/ap/def%61ult"}, {2, "/ap/%zz"}, {2, "/ap/"}}
+	"a+b", "a%20b", "%C3%A9", "%00", "%ff", "web;x", "a:b", "a@b", "~x", "web.v1", "a%25b", "node1", "node1", "Node1", "node%31", "n%2Fid%2Fx",
+	"%2577eb", "%2577eb", "%252F", "a%252Fb", "%25252F", "%252577eb", "%2525", "%25", "node%2531", "we%2562"}
+var dcSegs = []wpick{{62, "dc1"}, {8, "dc2"}, {5, "DC1"}, {5, "dc%31"}, {4, "d%631"}, {4, "dc1x"}, {4, "dc%2F1"}, {3, "%zz"}, {3, "dc1%2Fid%2Fnode1"}, {2, "*"},
+	{4, "%2564c1"}, {3, "dc%2531"}, {2, "%252564c1"}, {2, "dc1%252F"}}
+var nsSegs = []wpick{{80, "default"}, {5, "Default"}, {5, "other"}, {6, "def%61ult"}, {4, "%64efault"}, {4, "def%2561ult"}, {2, "%252564efault"}}
+var apPfx = []wpick{{72, ""}, {10, "/ap/default"}, {7, "/ap/foo"}, {3, "/ap/DEFAULT"}, {4, "/ap/def%61ult"}, {2, "/ap/%zz"}, {2, "/ap/"}, {3, "/ap/def%2561ult"}}
 var sufs = []wpick{{86, ""}, {4, "?x=1"}, {3, "#frag"}, {3, "/"}, {2, "/extra"}, {2, "?"}}
 var schemes = []wpick{{91, "spiffe"}, {2, "SPIFFE"}, {3, "https"}, {2, "spiffes"}, {2, ""}}
 var junkPaths = []string{"/", "", "/foo", "/ns/default/dc/dc1/svc", "/ns/default/dc/dc1/svc/", "//ns/default/dc/dc1/svc/web",
@@ -1064,6 +1066,9 @@ func (s *sess) doSign(r *hx.RNG, spec csrSpec, ag authzGen, tags []string) bool 
 			cand[seg] = true
 			if d, err := url.PathUnescape(seg); err == nil {
 				cand[d] = true
+				if d2, err := url.PathUnescape(d); err == nil {
+					cand[d2] = true
+				}
 			}
 		}
 		ut = append(ut, strings.Join([]string{hx.EncS(u.Scheme), hx.EncS(u.Host), hx.EncS(u.Path), hx.EncS(u.RawPath), hx.EncS(u.String())}, ";"))
@@ -1083,12 +1088,18 @@ func (s *sess) doSign(r *hx.RNG, spec csrSpec, ag authzGen, tags []string) bool 
 	op := fmt.Sprintf("sign %s %s %s %s %s %d %s %s", hx.EncBool(mesh), hx.EncBool(aclw), hx.EncList(st), hx.EncList(nt),
 		hx.EncList(ut), nEmails, hx.EncSList(reqDNS), hx.EncSList(reqIPs))
 
+	// reported right after the sign line is written, so that the replay ends with the failing CSR
+	var deferred [][2]string
 	for _, u := range reqURIs {
 		if why := parserDisagreement(u); why != "" {
-			s.line(op, "parser-disagreement") // keep the failing CSR in the replay
-			s.ops = s.ops[:len(s.ops)-1]
-			s.violate("ca:ParseCertURI-disagrees-with-independent-parse", fmt.Sprintf("CSR URI %s: %s", u, why))
+			deferred = append(deferred, [2]string{"ca:ParseCertURI-disagrees-with-independent-parse", fmt.Sprintf("CSR URI %s: %s", u, why)})
 		}
+	}
+	flush := func() {
+		for _, d := range deferred {
+			s.violate(d[0], d[1])
+		}
+		deferred = nil
 	}
 	td := s.trustDomain()
 	s.inSign, s.signOps = true, nil
@@ -1108,6 +1119,7 @@ func (s *sess) doSign(r *hx.RNG, spec csrSpec, ag authzGen, tags []string) bool 
 		e := classify(err)
 		s.run.Tag("sign:err:" + strings.SplitN(e, ":", 2)[0])
 		s.line(op, "err "+e+" caops="+caops)
+		flush()
 		s.run.Case(op, e != "format" && e != "uri-count")
 		if cur := s.snap(); cur.String() != s.prev.String() {
 			// a rejected request may not change the CA tables beyond the serial counter
@@ -1123,6 +1135,7 @@ func (s *sess) doSign(r *hx.RNG, spec csrSpec, ag authzGen, tags []string) bool 
 	leaf, perr := connect.ParseCert(issued.CertPEM)
 	if perr != nil {
 		s.line(op, "ok unparseable-cert caops="+caops)
+		flush()
 		s.violate("ca:issued-certificate-does-not-parse", perr.Error())
 		return true
 	}
@@ -1150,6 +1163,7 @@ func (s *sess) doSign(r *hx.RNG, spec csrSpec, ag authzGen, tags []string) bool 
 	s.line(op, fmt.Sprintf("ok ids=%s uris=%s serial=%d root=%s dns=%s ips=%s emails=%d ca=%s caops=%s",
 		hx.EncList(ids), hx.EncList(curis), serial, hx.EncS(signer), hx.EncSList(leaf.DNSNames), hx.EncSList(ipStrings(leaf.IPAddresses)),
 		len(leaf.EmailAddresses), hx.EncBool(leaf.IsCA), caops))
+	flush()
 	s.prev = s.snap()
 	s.run.Sample(map[string]any{"csr_uris": spec.uris, "authorizer": ag.desc, "issued_uri": curis, "serial": serial})
 
@@ -1231,8 +1245,35 @@ func (s *sess) doSign(r *hx.RNG, spec csrSpec, ag authzGen, tags []string) bool 
 		return true
 	}
 	s.run.Tag("sign:ok:" + kind)
-	if why := structureMismatch(leaf.URIs[0], cid); why != "" {
-		s.violate("ca:issued-uri-structure-differs-from-parsed-identity", fmt.Sprintf("%s parsed as %s: %s", leaf.URIs[0], idString(cid), why))
+	// the identity the certificate carries, parsed independently of ParseCertURI: it is the one the
+	// permission, datacenter and trust-domain conditions must hold for
+	iid, iok := indepParse(leaf.URIs[0])
+	if !iok || iid.String() != idString(cid) {
+		s.violate("ca:issued-uri-structure-differs-from-parsed-identity", fmt.Sprintf("%s: ParseCertURI says %s, decoding each path segment once gives %s (identity: %v)", leaf.URIs[0], idString(cid), iid, iok))
+	}
+	if iok {
+		kind, host, dc = iid.kind, iid.host, iid.dc
+		switch iid.kind {
+		case "service":
+			allowed = ag.az.ServiceWrite(iid.name, nil) == acl.Allow
+			if iid.ns != "default" || iid.ap != "default" {
+				s.violate("ca:service-identity-outside-default-namespace-signed", iid.String())
+			}
+		case "agent":
+			allowed = ag.az.NodeWrite(iid.name, nil) == acl.Allow
+		case "gateway":
+			allowed = mesh
+			if iid.ap != "default" {
+				s.violate("ca:gateway-identity-outside-default-partition-signed", iid.String())
+			}
+		case "server":
+			allowed = aclw
+		}
+		if len(reqURIs) == 1 {
+			if rid, rok := indepParse(reqURIs[0]); !rok || rid.scope() != iid.scope() {
+				s.violate("ca:certificate-identity-differs-from-request", fmt.Sprintf("requested %s (decoded once: %s, identity: %v), certificate carries %s", reqURIs[0], rid, rok, iid))
+			}
+		}
 	}
 	// the RPC reply must describe the certificate it carries
 	replyURI, replyName, wantName := "", "", ""
@@ -1250,7 +1291,7 @@ func (s *sess) doSign(r *hx.RNG, spec csrSpec, ag authzGen, tags []string) bool 
 		s.violate("ca:reply-does-not-describe-the-certificate", fmt.Sprintf("reply uri=%q name=%q serial=%s, certificate %s serial %d", replyURI, replyName, issued.SerialNumber, leaf.URIs[0], serial))
 	}
 	if !allowed {
-		s.violate("ca:"+kind+"-identity-signed-without-write-permission", fmt.Sprintf("%s issued under authorizer [%s]", idString(cid), ag.desc))
+		s.violate("ca:"+kind+"-identity-signed-without-write-permission", fmt.Sprintf("certificate %s (request %s) issued under authorizer [%s]", leaf.URIs[0], reqURIs[0], ag.desc))
 	}
 	if dc != localDC {
 		s.violate("ca:"+kind+"-identity-foreign-datacenter-signed", fmt.Sprintf("%s issued by a server of datacenter %s", leaf.URIs[0], localDC))
@@ -1313,6 +1354,9 @@ func (s *sess) genSign(r *hx.RNG) {
 					hints = append(hints, last)
 					if d, err := url.PathUnescape(last); err == nil {
 						hints = append(hints, d, d)
+						if d2, err := url.PathUnescape(d); err == nil && d2 != d {
+							hints = append(hints, d2, d2)
+						}
 					}
 				}
 			}
@@ -1490,7 +1534,7 @@ func exhaustiveSession(run *hx.Run, r *hx.RNG, wide bool) {
 		panic(err)
 	}
 	s.mgrLine()
-	alpha := []string{"a", "A", "a%2Fb", "%61", "*", "", "dc1", "dc%31"}
+	alpha := []string{"a", "A", "a%2Fb", "%61", "*", "", "dc1", "dc%31", "%2561", "a%252Fb", "dc%2531", "%252561"}
 	td := s.trustDomain()
 	hosts := []string{td, "foreign.consul"}
 	aps := []string{""}
